@@ -199,7 +199,7 @@ __ndim_ht(const unsigned int *cal, size_t nm, unsigned int y, unsigned int m)
 /* return the number of days in (hijri) month M in (hijri) year Y. */
 	const unsigned int i = (y - 1U) * 12U + (m - 1U) - SM(cal);
 
-	if (UNLIKELY(i + 1U >= nm)) {
+	if (UNLIKELY(i >= nm || i + 1U >= nm)) {
 		return 0U;
 	}
 	return MT(cal)[i + 1U] - MT(cal)[i + 0U];
